@@ -335,7 +335,7 @@ func checkC08(c *Ctx) {
 			guarded := false
 			for _, l := range m.GuardsAt(in) {
 				if !l.Truth && m.isClaimLoadSym(l.S) {
-					if ld, ok := l.S.V.(*ssa.Call); ok && ld.Parent() == unit && la0.MustBefore(ld)[m.implMuW()] && la0.MustBefore(in)[m.implMuW()] {
+					if ld, ok := l.S.V.(*ssa.Call); ok && ld.Parent() == unit && la0.MustBefore(ld)[m.implMuW()] && la0.MustBefore(in)[m.implMuW()] && m.sameHold(ld, in, m.path(m.Mu)) {
 						guarded = true
 					}
 				}
